@@ -238,7 +238,8 @@ def _check(prop, tier, replay):
 
     # ---------- 2. proofs --------------------------------------------------------------------
     targets = list(P.LEAN_TARGETS)
-    ok, log, broken = lean_build(targets + [f'drv_{prop}'])
+    drv = getattr(P, 'DRIVER', prop)      # a property may share another property's model driver
+    ok, log, broken = lean_build(targets + [f'drv_{drv}'])
     theorems = list(P.THEOREMS)
     axioms, audit_out = ({t: None for t in theorems}, '')
     broken_names = []
@@ -261,7 +262,7 @@ def _check(prop, tier, replay):
         else:
             undischarged.append((t, ax))
     proof_broken = bool(undischarged) or bool(forbidden)
-    driver = Driver(prop)
+    driver = Driver(drv)
     if not driver.ok:
         print('note: Lean driver not built; correspondence cannot run')
 
@@ -410,7 +411,7 @@ def _check(prop, tier, replay):
     samples = []
     for i in list(range(min(3, len(cases)))):
         samples.append({'case': cases[i], 'impl': impls[i], 'model': answers.get(i)})
-    checker_cmd = f'cd lean && lake build {" ".join(targets)} drv_{prop} && lake env lean NdnProofs/Audit/{prop}.lean  (#print axioms per theorem; grep for sorry/admit/axiom/native_decide/bv_decide in {len(sources)} source files)'
+    checker_cmd = f'cd lean && lake build {" ".join(targets)} drv_{drv} && lake env lean NdnProofs/Audit/{prop}.lean  (#print axioms per theorem; grep for sorry/admit/axiom/native_decide/bv_decide in {len(sources)} source files)'
     leanchecker = None
     if tier == 'thorough' and ok:
         with Lock(os.path.join(LEAN, '.build.lock')):
